@@ -41,7 +41,9 @@ func encodeToString(candidate *CandidateNode, prefs encoderPreferences) (string,
 	}
 
 	printer := NewPrinter(encoder, NewSinglePrinterWriter(bufio.NewWriter(&output)))
-	err := printer.PrintResults(candidate.AsList())
+	// the printer explodes anchors and aliases in place for formats that do not have them;
+	// encoding a value inside an expression must leave the document alone
+	err := printer.PrintResults(candidate.Copy().AsList())
 	return output.String(), err
 }
 
